@@ -264,6 +264,17 @@ func (sc *SpecCtx) evalBinary(e *SExpr) (*Val, error) {
 	case "<==>":
 		return &Val{T: eq(x.T, y.T), Ty: boolType}, nil
 	case "==", "!=":
+		// a struct-typed location compared with a struct value: compare contents
+		loadIf := func(v *Val) *Val {
+			if v.StructLoc {
+				st, _ := derefStruct(v.Ty)
+				return &Val{T: sc.g.loadStruct(sc.cur, v.T, st), Ty: st}
+			}
+			return v
+		}
+		if x.StructLoc || y.StructLoc {
+			x, y = loadIf(x), loadIf(y)
+		}
 		var t string
 		switch {
 		case isSliceVal(x) && e.Y.Kind == SNil:
@@ -319,7 +330,7 @@ func (sc *SpecCtx) field(x *Val, name string) (*Val, error) {
 		}
 		loc, sub, _ := g.fieldOf(ref, cur, idx)
 		if sub != "" && isStruct(ft) {
-			return &Val{T: sub, Ty: types.NewPointer(ft)}, nil
+			return &Val{T: sub, Ty: types.NewPointer(ft), StructLoc: true}, nil
 		}
 		if sub != "" { // array field
 			return &Val{T: g.readLoc(sc.cur, loc), Ty: ft, LV: nil}, nil
@@ -371,7 +382,7 @@ func (sc *SpecCtx) index(x, i *Val) (*Val, error) {
 	case *types.Slice:
 		at := sx("ix", sx("sl-off", x.T), i.T)
 		if isStruct(t.Elem()) {
-			return &Val{T: sx("elemref", sx("sl-base", x.T), at), Ty: types.NewPointer(t.Elem())}, nil
+			return &Val{T: sx("elemref", sx("sl-base", x.T), at), Ty: types.NewPointer(t.Elem()), StructLoc: true}, nil
 		}
 		loc := &Loc{Comp: elemComp(t.Elem()), Ref: sx("sl-base", x.T), Idx: at, Ty: t.Elem()}
 		return &Val{T: g.readLoc(sc.cur, loc), Ty: t.Elem()}, nil
@@ -526,6 +537,71 @@ func (sc *SpecCtx) call(e *SExpr) (*Val, error) {
 			return &Val{T: eq(sx("sl-base", x.T), "0"), Ty: boolType}, nil
 		}
 		return &Val{T: eq(x.T, "0"), Ty: boolType}, nil
+	case "deref":
+		x, err := argv(0)
+		if err != nil {
+			return nil, err
+		}
+		if x.Boxed != nil {
+			x = x.Boxed
+		}
+		pt, ok := x.Ty.Underlying().(*types.Pointer)
+		if !ok {
+			return nil, fmt.Errorf("deref of non-pointer")
+		}
+		if isStruct(pt.Elem()) {
+			return &Val{T: x.T, Ty: x.Ty}, nil
+		}
+		return &Val{T: g.load(sc.cur, x, pt.Elem()), Ty: pt.Elem()}, nil
+	case "target_type":
+		// the type id of what a pointer argument points to (static type)
+		x, err := argv(0)
+		if err != nil {
+			return nil, err
+		}
+		if x.Boxed != nil {
+			x = x.Boxed
+		}
+		pt, ok := x.Ty.Underlying().(*types.Pointer)
+		if !ok {
+			return nil, fmt.Errorf("target_type of non-pointer")
+		}
+		return &Val{T: intLit(int64(g.st.typeID(pt.Elem()))), Ty: intType}, nil
+	case "typeid":
+		if len(e.Args) != 1 {
+			return nil, fmt.Errorf("typeid(\"type\")")
+		}
+		id, err := g.typeIDByName(selName(e.Args[0]))
+		if err != nil {
+			return nil, err
+		}
+		return &Val{T: intLit(int64(id)), Ty: intType}, nil
+	case "iface":
+		// the interface value holding x (of x's static type)
+		x, err := argv(0)
+		if err != nil {
+			return nil, err
+		}
+		if types.IsInterface(x.Ty) {
+			return x, nil
+		}
+		box, _ := g.st.boxFun(x.Ty)
+		return &Val{T: sx(box, x.T)}, nil
+	case "asptr":
+		// asptr(x, "*pkg.T"): the *T held by interface value x
+		x, err := argv(0)
+		if err != nil {
+			return nil, err
+		}
+		if len(e.Args) != 2 {
+			return nil, fmt.Errorf("asptr(x, \"*pkg.T\")")
+		}
+		t, err := g.typeByName(selName(e.Args[1]))
+		if err != nil {
+			return nil, err
+		}
+		_, unbox := g.st.boxFun(t)
+		return &Val{T: sx(unbox, x.T), Ty: t}, nil
 	case "typeis":
 		// typeis(x, "pkg.T") : dynamic type of interface value x is the named type
 		x, err := argv(0)
@@ -635,6 +711,27 @@ func (sc *SpecCtx) lvalTargets(e *SExpr) ([]frameTarget, error) {
 		}
 		return nil, fmt.Errorf("modifies: cannot index %s", typeKey(x.Ty))
 	case SCall:
+		if e.Name == "deref" && len(e.Args) == 1 {
+			x, err := sc.eval(e.Args[0])
+			if err != nil {
+				return nil, err
+			}
+			if x.Boxed != nil {
+				x = x.Boxed
+			}
+			pt, ok := x.Ty.Underlying().(*types.Pointer)
+			if !ok {
+				return nil, fmt.Errorf("modifies deref(): not a pointer")
+			}
+			if isStruct(pt.Elem()) {
+				var out []frameTarget
+				g.structTargets(x.T, pt.Elem(), &out)
+				return out, nil
+			}
+			loc := g.locOfPtr(x, pt.Elem())
+			g.scalarComp(loc.Comp, loc.Ty)
+			return []frameTarget{{Comp: loc.Comp, Ref: loc.Ref, Idx: loc.Idx}}, nil
+		}
 		if d, ok := g.eng.defs[e.Name]; ok && d.GhostMap != "" && len(e.Args) == 1 {
 			k, err := sc.eval(e.Args[0])
 			if err != nil {
@@ -681,6 +778,14 @@ func (g *Gen) structTargets(ref string, t types.Type, out *[]frameTarget) {
 
 // typeIDByName resolves "pkg.T" or "*pkg.T" among the loaded named types.
 func (g *Gen) typeIDByName(name string) (int, error) {
+	t, err := g.typeByName(name)
+	if err != nil {
+		return 0, err
+	}
+	return g.st.typeID(t), nil
+}
+
+func (g *Gen) typeByName(name string) (types.Type, error) {
 	ptr := strings.HasPrefix(name, "*")
 	bare := strings.TrimPrefix(name, "*")
 	for _, t := range g.eng.allNamed {
@@ -689,8 +794,8 @@ func (g *Gen) typeIDByName(name string) (int, error) {
 			if ptr {
 				tt = types.NewPointer(t)
 			}
-			return g.st.typeID(tt), nil
+			return tt, nil
 		}
 	}
-	return 0, fmt.Errorf("unknown type %q", name)
+	return nil, fmt.Errorf("unknown type %q", name)
 }
